@@ -216,17 +216,12 @@ fn parse(text: &str, allow_substvar: bool) -> Parse {
 
                 self.skip_ws();
 
-                if self.current() == Some(IDENT) {
-                    self.bump();
-                    // A version with an epoch ("1:2.0") is lexed as IDENT COLON IDENT; the
-                    // upstream part of such a version may contain further colons.
-                    while self.current() == Some(COLON) {
+                if self.current() == Some(IDENT) || self.current() == Some(COLON) {
+                    // A version with an epoch ("1:2.0") is lexed as IDENT COLON IDENT, and the
+                    // upstream part of such a version may contain further colons: like the
+                    // lossy reader, take the whole run of IDENT and COLON tokens.
+                    while self.current() == Some(IDENT) || self.current() == Some(COLON) {
                         self.bump();
-                        if self.current() == Some(IDENT) {
-                            self.bump();
-                        } else {
-                            self.error("Expected version after epoch".to_string());
-                        }
                     }
                 } else {
                     self.error("Expected version".to_string());
